@@ -20,6 +20,7 @@ import (
 	"net"
 	"os"
 	"runtime"
+	"sort"
 	"strconv"
 	"strings"
 	"sync"
@@ -519,24 +520,27 @@ var reasonNames = map[mail.SendErrReason]string{
 }
 
 func rcptIndices(e *mail.SendError, m int, cfg Cfg) []int {
-	out := []int{}
+	// SendError has no accessor for the rejected recipients: they are what its text lists. The text is searched
+	// for the recipient addresses of the scenario (robust against a change of the wording): the recipients of
+	// this message by their number, a recipient of another message as 0.
+	type hit struct{ pos, idx int }
+	hits := []hit{}
 	s := e.Error()
-	i := strings.Index(s, "affected recipient(s): ")
-	if i < 0 {
-		return out
-	}
-	s = s[i+len("affected recipient(s): "):]
-	if j := strings.Index(s, ", affected message ID"); j >= 0 {
-		s = s[:j]
-	}
-	for _, a := range strings.Split(s, ", ") {
-		idx := 0
-		for r := 1; r <= cfg.Nr[m-1]; r++ {
-			if a == rcptAddr(m, r) {
-				idx = r
+	for mm := 1; mm <= len(cfg.Nr); mm++ {
+		for r := 1; r <= cfg.Nr[mm-1]; r++ {
+			if p := strings.Index(s, rcptAddr(mm, r)); p >= 0 {
+				idx := r
+				if mm != m {
+					idx = 0
+				}
+				hits = append(hits, hit{p, idx})
 			}
 		}
-		out = append(out, idx)
+	}
+	sort.Slice(hits, func(i, j int) bool { return hits[i].pos < hits[j].pos })
+	out := []int{}
+	for _, h := range hits {
+		out = append(out, h.idx)
 	}
 	return out
 }
